@@ -23,7 +23,8 @@ STATS = [None]
 
 
 def alphabet(cfg):
-    ops = [['train'], ['eval'], ['reset'], ['ckpt', True, True]]
+    ops = [['train'], ['eval'], ['reset'], ['ckpt', True, True],
+           ['train_reset']]
     k = cfg['kfac']
     if not any(isinstance(k.get(n), list) for n in K.HP_NAMES):
         ops.append(['sched', SCHED])
@@ -42,9 +43,9 @@ def cfg_name(cfg):
 def check_event(cfg, ev, rv, prev):
     v = []
     kind = ev['op'][0]
-    if kind == 'train':
+    if kind in ('train', 'train_reset'):
         v += O.grads_vs_ref(cfg, ev, rv, stats=STATS[0])
-        if rv['factor_step']:
+        if rv['factor_step'] and rv.get('moments_used', True):
             v += O.factors_vs_ref(cfg, ev, rv, stats=STATS[0])
         elif prev is not None and ev['dg']['fac'] != prev['dg']['fac']:
             v.append(('factors-changed', 'factors changed on a step that is '
@@ -76,7 +77,10 @@ def check_event(cfg, ev, rv, prev):
 def valid_next(cfg, rr, op):
     """Histories the documentation excludes are not generated."""
     ref = rr.ref
-    if op[0] == 'train':
+    if op[0] == 'train_reset' and any(ref.A[n] is None
+                                      for n in ref.layers):
+        return False
+    if op[0] in ('train', 'train_reset'):
         # second-order data must exist or be refreshed now
         if any(ref.so[n] is None for n in ref.layers) and not (
                 ref.is_inv_step() and (ref.is_factor_step() or all(
@@ -136,7 +140,7 @@ def bfs_case(part, item):
                         {'cfg': cfg, 'history': h2,
                          'all': [t for _, t in vs[:6]]})
                     continue
-                if op[0] == 'train' and not rv['inv_step']:
+                if op[0] in ('train', 'train_reset') and not rv['inv_step']:
                     nontrivial = True
                 k = _dg(r2.pre, r2.model)
                 if k in seen:
@@ -196,7 +200,7 @@ def main(run: core.Run):
     run.notes['depth'] = depth
     run.rule = (
         f'BFS to depth {depth} over {{train iteration, eval pass, '
-        'reset_batch, checkpoint round trip into a fresh preconditioner, '
+        'reset_batch at a boundary and between backward and step, checkpoint round trip into a fresh preconditioner, '
         'scheduler step}} on the real KFACPreconditioner (2-layer MLP) in '
         'lock-step with RefKFAC, for interval pairs incl. non-multiples and '
         'callables x accumulation {1,2} x hook/no-hook x constant or strictly '
